@@ -40,7 +40,7 @@ CONSTANTS NThreads,    \* request threads are 1..NThreads
                        \*   calls release_conn() on the unfinished response)
           MaxFails,    \* failing attempts per request (= the retries the caller allows)
           MaxConn,     \* bound on connection objects ever created
-          Deviations,  \* subset of {"D12", "NoAttrArm", "DoublePut", "NoClearConn", "DrainBeforeSwap", "NoBlockRaise",
+          Deviations,  \* subset of {"D12", "NoAttrArm", "DoublePut", "NoClearConn", "DrainThenDisable", "NoBlockRaise",
                        \*            "LoadOnce", "PutBeforeClose"}
           Repairs,     \* subset of {"WakeOnClose"}
           KeepHist     \* BOOLEAN: record hist / script (emission runs); FALSE keeps the stage-1 state space small
@@ -57,6 +57,8 @@ SENT == MaxConn + 1          \* the wake-up sentinel of the WakeOnClose repair (
 (* o.cur / o.got [thread -> <<thread, request>> or <<>>]                                                   *)
 (* o.outs set of [o |-> outcome, closed |-> BOOLEAN]  o.dropped  o.alive  o.waiting (sets of threads)    *)
 (* o.pre  threads that were already parked inside queue.get when close() swapped the queue out            *)
+(* o.swapok  slot conservation held when close() disabled the pool: queue length + slots on lease = maxsize *)
+(*           (in the unchanged code close() drains only AFTER the swap, so nothing is missing at the swap)     *)
 (* o.sep  threads whose checkout obtained its queue reference by a statement of its own (not by the       *)
 (*        `self.pool.get(...)` expression itself) and has not completed the get yet                        *)
 
@@ -85,8 +87,12 @@ NoHang(o) == ~Hung(o)
 \* that (now orphaned) queue object, and each of them either was parked inside queue.get when the swap
 \* happened or holds a reference loaded by the `self.pool.get(...)` expression itself (no statement of the
 \* checkout ran between loading the reference and calling get)
+\* and (3) no slot had vanished when the pool was disabled: a waiter can only be parked because every slot
+\* is on lease to somebody else (queue length + leases = maxsize at the swap) - a queue that close() itself
+\* emptied while the pool still looked open is a different hang
 OrphanWaiters(o) == /\ Block /\ o.ptr = "closed" /\ Hung(o)
                     /\ \A w \in o.waiting : w \in o.pre \/ w \notin o.sep
+                    /\ o.swapok
 
 \* total monitor: the first failing clause, in a fixed order
 FirstFailing(o) ==
@@ -117,7 +123,7 @@ vars == <<ptr, queue, open, wire, holds, lastio, outs, got, cur, dropped, loc, f
 
 Dev(d) == d \in Deviations
 L0 == [pc |-> "idle", conn |-> NONE, lq |-> "none", left |-> Reqs, fails |-> 0, clean |-> FALSE,
-       err |-> "", site |-> "U", sclose |-> FALSE, dbl |-> FALSE, sep |-> FALSE, pre |-> FALSE, part |-> FALSE]
+       err |-> "", site |-> "U", sclose |-> FALSE, dbl |-> FALSE, sep |-> FALSE, pre |-> FALSE, part |-> FALSE, slot |-> FALSE, swapok |-> TRUE]
 
 Init == /\ ptr = "open"
         /\ queue = [i \in 1..MaxSize |-> NONE]
@@ -138,7 +144,7 @@ Parked(p) == /\ p \in Threads /\ Pc(p) = "g3" /\ queue = <<>> /\ Block /\ ~Dev("
 (* ---- urlopen: start of a request *)
 Start(t) == /\ Pc(t) = "idle" /\ loc[t].left > 0
             /\ Set(t, [loc[t] EXCEPT !.pc = "g1", !.left = @ - 1, !.fails = 0, !.err = "", !.site = "U",
-                                      !.conn = NONE, !.clean = FALSE, !.sclose = FALSE, !.dbl = FALSE, !.sep = FALSE, !.part = FALSE])
+                                      !.conn = NONE, !.clean = FALSE, !.sclose = FALSE, !.dbl = FALSE, !.sep = FALSE, !.part = FALSE, !.slot = FALSE])
             /\ cur' = [cur EXCEPT ![t] = <<t, Reqs - loc[t].left + 1>>]
             /\ got' = [got EXCEPT ![t] = <<>>]
             /\ UNCHANGED <<ptr, queue, open, wire, holds, outs, dropped, fresh, script, res>>
@@ -167,7 +173,7 @@ G3(t) == /\ Pc(t) = "g3"
                /\ queue' = Pop(queue)
                /\ IF Top(queue) = SENT
                      THEN Set(t, [loc[t] EXCEPT !.pc = "g3s"]) /\ UNCHANGED holds
-                     ELSE /\ Set(t, [loc[t] EXCEPT !.pc = "g4", !.conn = Top(queue), !.sep = FALSE])
+                     ELSE /\ Set(t, [loc[t] EXCEPT !.pc = "g4", !.conn = Top(queue), !.sep = FALSE, !.slot = Block])   \* (slots are only accounted on block=True pools)
                           /\ holds' = [holds EXCEPT ![t] = IF Top(queue) = NONE THEN @ ELSE @ \cup {Top(queue)}]
             ELSE /\ ~Block \/ Dev("NoBlockRaise")
                  /\ Set(t, [loc[t] EXCEPT !.pc = "g4", !.conn = NONE, !.sep = FALSE]) /\ UNCHANGED <<queue, holds>>
@@ -252,13 +258,13 @@ P3(t) == /\ Pc(t) = "p3"
          /\ IF Len(queue) < MaxSize THEN
                /\ queue' = Append(queue, loc[t].conn)
                /\ IF Dev("DoublePut") /\ ~loc[t].dbl /\ loc[t].conn # NONE
-                     THEN Set(t, [loc[t] EXCEPT !.pc = "p3", !.dbl = TRUE])
-                     ELSE Set(t, [loc[t] EXCEPT !.pc = "pend"])
+                     THEN Set(t, [loc[t] EXCEPT !.pc = "p3", !.dbl = TRUE, !.slot = FALSE])
+                     ELSE Set(t, [loc[t] EXCEPT !.pc = "pend", !.slot = FALSE])
                /\ UNCHANGED open
             ELSE \* queue.Full: close the connection; FullPoolError when block, else log the size
                /\ open' = open \ {loc[t].conn} /\ UNCHANGED queue
                \* (WakeOnClose repair: a full *orphaned* queue is the closed-pool arm, not an error)
-               /\ Set(t, [loc[t] EXCEPT !.pc = IF Dev("D12") /\ ~Block THEN "p3log" ELSE "pend",
+               /\ Set(t, [loc[t] EXCEPT !.pc = IF Dev("D12") /\ ~Block THEN "p3log" ELSE "pend", !.slot = FALSE,
                                          !.err = IF Block /\ @ = "" /\ ~("WakeOnClose" \in Repairs /\ ptr = "closed")
                                                  THEN "FullPoolError" ELSE @])
          /\ holds' = [holds EXCEPT ![t] = {}]
@@ -270,7 +276,7 @@ P3Log(t) == /\ Pc(t) = "p3log"
 \* closed-pool arm: `if conn: conn.close()`
 P4(t) == /\ Pc(t) = "p4"
          /\ open' = open \ {loc[t].conn}
-         /\ Set(t, [loc[t] EXCEPT !.pc = "pend"])
+         /\ Set(t, [loc[t] EXCEPT !.pc = "pend", !.slot = FALSE])
          /\ UNCHANGED <<ptr, queue, wire, holds, outs, got, cur, dropped, fresh, script, res>>
 \* back in the caller of _put_conn
 PEnd(t) == /\ Pc(t) = "pend"
@@ -293,22 +299,24 @@ End(t) == /\ Pc(t) = "end"
 (* ---- close() *)
 C0(k) == /\ Pc(k) = "c0"
          /\ Set(k, [loc[k] EXCEPT !.pc = IF ptr = "closed" THEN "cdone"
-                                          ELSE IF Dev("DrainBeforeSwap") THEN "c2" ELSE "c1",
-                                   !.lq = IF Dev("DrainBeforeSwap") /\ ptr = "open" THEN "q" ELSE @])
+                                          ELSE IF Dev("DrainThenDisable") THEN "c2" ELSE "c1",
+                                   !.lq = IF Dev("DrainThenDisable") /\ ptr = "open" THEN "q" ELSE @])
          /\ UNCHANGED <<ptr, queue, open, wire, holds, outs, got, cur, dropped, fresh, script, res>>
 \* old_pool, self.pool = self.pool, None
 C1(k) == /\ Pc(k) = "c1"
          /\ ptr' = "closed"
          /\ loc' = [p \in Procs |->
-                      IF p = k THEN [loc[k] EXCEPT !.pc = IF Dev("DrainBeforeSwap") THEN "cdone" ELSE "c2",
-                                                   !.lq = IF ptr = "open" THEN "q" ELSE "none"]
+                      IF p = k THEN [loc[k] EXCEPT !.pc = IF Dev("DrainThenDisable") THEN "cdone" ELSE "c2",
+                                                   !.lq = IF ptr = "open" THEN "q" ELSE "none",
+                                                   \* slot conservation at the moment the pool is disabled
+                                                   !.swapok = (Len(queue) + Cardinality({t \in Threads : loc[t].slot}) = MaxSize)]
                       ELSE [loc[p] EXCEPT !.pre = Parked(p)]]        \* who is parked inside get at the swap
          /\ UNCHANGED <<queue, open, wire, holds, outs, got, cur, dropped, fresh, script, res>>
 \* _close_pool_connections(old_pool): one get per step until Empty
 C2(k) == /\ Pc(k) = "c2"
          /\ IF loc[k].lq = "q" /\ queue # <<>> THEN
                /\ open' = open \ {Top(queue)} /\ queue' = Pop(queue) /\ UNCHANGED loc
-            ELSE /\ Set(k, [loc[k] EXCEPT !.pc = IF Dev("DrainBeforeSwap") THEN "c1"
+            ELSE /\ Set(k, [loc[k] EXCEPT !.pc = IF Dev("DrainThenDisable") THEN "c1"
                                                   ELSE IF "WakeOnClose" \in Repairs THEN "c3" ELSE "cdone"])
                  /\ UNCHANGED <<queue, open>>
          /\ UNCHANGED <<ptr, wire, holds, outs, got, cur, dropped, fresh, script, res>>
@@ -322,7 +330,8 @@ C3(k) == /\ Pc(k) = "c3"
 Obs == [ptr |-> ptr, queue |-> queue, open |-> open, holds |-> holds, lastio |-> lastio, cur |-> cur, got |-> got,
         outs |-> outs, dropped |-> dropped,
         alive |-> {p \in Procs : ~Finished(p)}, waiting |-> {p \in Procs : Parked(p)},
-        pre |-> {p \in Procs : loc[p].pre}, sep |-> {p \in Procs : loc[p].sep}]
+        pre |-> {p \in Procs : loc[p].pre}, sep |-> {p \in Procs : loc[p].sep},
+        swapok |-> \A p \in Procs \ Threads : loc[p].swapok]
 
 (* ---- the pool object is dropped: weakref.finalize drains the queue object; nothing else refers to connections *)
 Drop == /\ Quiescent(Obs) /\ ~dropped /\ dropped' = TRUE
